@@ -183,6 +183,26 @@ func c18Chain(t *rapid.T, subject string) string {
 	return e
 }
 
+var c18Corners = []string{
+	"{% if nest.k > 100 %}x{% else %}{% set fresh = 1 %}{{ fresh }}{% endif %}",
+	"{% if false %}a{% elseif true %}{% set fresh2 = xs|length %}{% endif %}",
+	"{% if nest.k %}{% if false %}{% else %}{% set xs = [] %}{% endif %}{% endif %}{{ xs|length }}",
+	"{% apply upper %}{% if false %}{% else %}{% set m = 1 %}{% endif %}{% endapply %}",
+	"{% block b %}{% if false %}{% else %}{% set ys = 0 %}{% endif %}{% endblock %}",
+	"{% spaceless %}{% if false %}{% else %}{% set fresh3 = 'v' %}{% endif %}{% endspaceless %}",
+	"{% if false %}{% else %}{% for x in xs %}{% endfor %}{% endif %}",
+	"{% if false %}{% else %}{% for k, v in m %}{% endfor %}{% endif %}",
+	"{% verbatim %}raw{% endverbatim %}{% if false %}{% else %}{% do 1 %}{% set z9 = 2 %}{% endif %}",
+	"{% if false %}{% elseif false %}{% else %}{% if true %}{% set deep = ys %}{% endif %}{% endif %}{{ deep|join }}",
+	"{{ xs|join }}{% if xs %}{% else %}{% endif %}{% if ys|length > 100 %}{% else %}{% set ys = ys|merge([1]) %}{% endif %}",
+	"{% set only = 1 %}",
+	"{% for x in xs %}{% endfor %}",
+	"{% include 'inc' with {'l': xs} %}",
+	"{% import 'lib' as m %}",
+	"{% from 'lib' import tag as xs %}",
+	"{% macro xs() %}{% endmacro %}",
+}
+
 func genC18(t *rapid.T) (C18Case, []string) {
 	ctx := c18Ctx(t)
 	tm := map[string]string{"inc": "{% set l = l|merge([100]) %}{% for q in l %}{% set q = 0 %}{% endfor %}{{ l|sort|join(',') }}",
@@ -225,10 +245,17 @@ func genC18(t *rapid.T) (C18Case, []string) {
 		}
 	}
 	tm["main"] = strings.Join(parts, "|")
+	if rapid.IntRange(0, 7).Draw(t, "corner") == 0 {
+		// templates that assign in one corner only (an else / elseif branch, below apply, block,
+		// spaceless): an engine that decides from the template's shape whether it may work on
+		// the caller's map directly must look into every branch
+		tm["main"] = rapid.SampledFrom(c18Corners).Draw(t, "cornertmpl")
+		cl = []string{"assignment-in-one-corner-only"}
+	}
 	return C18Case{Ctx: ctx, Tmpl: tm}, cl
 }
 
-const c18Rule = "contexts in which every collection is reachable twice (aliased keys) and nested (untyped lists with spare capacity, []int, []string, [3]int, named slice and map types (type Row []interface{} ...), untyped and typed maps, struct and pointer-to-struct fields); templates that apply chains of 1-4 collection-returning filters (sort, reverse, merge, slice, default) and functions (merge, max, cycle, range) to them, set results and re-filter them, loop with set on the loop variable, pass them through include-with and macro arguments where the callee reassigns and re-filters them, and rebind context names; non-trivial = at least one collection-returning filter is applied to a context collection with >= 2 elements (always true by construction); distinct by (context, template)"
+const c18Rule = "contexts in which every collection is reachable twice (aliased keys) and nested (untyped lists with spare capacity, []int, []string, [3]int, named slice and map types (type Row []interface{} ...), untyped and typed maps, struct and pointer-to-struct fields); templates that apply chains of 1-4 collection-returning filters (sort, reverse, merge, slice, default) and functions (merge, max, cycle, range) to them, set results and re-filter them, loop with set on the loop variable, pass them through include-with and macro arguments where the callee reassigns and re-filters them, rebind context names, or assign in one corner only (an else branch, below apply/block/spaceless); non-trivial = at least one collection-returning filter is applied to a context collection with >= 2 elements (always true by construction); distinct by (context, template)"
 
 func TestC18Immutable(t *testing.T) {
 	r := NewRec(t, "C18", c18Rule)
